@@ -6,7 +6,7 @@ from props.base import run_req, cmp_run
 
 RULE = ("random sequences of 3..12 file-system built-in calls over a tree of 7 paths (nested directories) in a fresh scratch "
         "directory (30 % of the paths respelled with name/.. detours through directories, files and missing names, '.', '//' "
-        "and trailing slashes: the kernel's walk decides, not the text), with contents empty / multi-line / Bangla / 64 KB, pre-existing files, directories, a file with invalid "
+        "and trailing slashes: the kernel's walk decides, not the text), with contents empty / multi-line / Bangla / 64 KB ASCII / 9 KB and 180 KB Bangla (multi-byte characters across every buffer boundary), pre-existing files, directories, a file with invalid "
         "UTF-8 content and a directory entry with an invalid UTF-8 name; every result is printed; failing calls (missing path, "
         "file where a directory is expected and vice versa, unreadable content) are generated on purpose. Oracle: a Python "
         "model of the abstract file tree predicts every printed line and the error; the final real directory listing "
@@ -24,7 +24,8 @@ def canon_listing(out):
 
 default_compare = lambda m, i: C.compare_run(m, i, line=True, extra=("fs",), canon=canon_listing)
 REL = ["a.txt", "b.txt", "d1", "d1/c.txt", "d1/d2", "d1/d2/e.txt", "d3/d4/f.txt"]
-CONTENTS = ["", "এক লাইন", "লাইন ১\nলাইন ২\n", "ascii text", "x" * 65536, "শেষে ফাঁকা  \n", "ট্যাব\tx"]
+CONTENTS = ["", "এক লাইন", "লাইন ১\nলাইন ২\n", "ascii text", "x" * 65536, "শেষে ফাঁকা  \n", "ট্যাব\tx",
+            "ক" * 3000, "a" + "খ" * 2731 + "\n", "পাখি ভাষা " * 7000]   # long non-ASCII text: multi-byte characters at every offset mod 8192
 
 
 class Fs:
